@@ -234,6 +234,9 @@ func (c *dataMsg) deserialize(msg []byte, v otrVersion) error {
 	}
 
 	msg = msg[len(c.serializeUnsignedCache):]
+	if len(msg) < v.hashLength() {
+		return newOtrError("dataMsg.deserialize corrupted authenticator")
+	}
 	c.authenticator = msg[0:v.hashLength()]
 	msg = msg[len(c.authenticator):]
 
